@@ -54,11 +54,11 @@ def theorems_of(pid):
 
 def coqchk_axioms(pid):
     """independent re-check of the compiled property file and everything it depends on (thorough tier)"""
-    r = sh("timeout 1800 coqchk -silent -o -Q . SF SF.Properties.%s" % pid, cwd=COQ)
+    r = sh("timeout 900 coqchk -silent -o -Q . SF SF.Properties.%s" % pid, cwd=COQ)
     if r.returncode == 124:
         # coqchk re-reduces every vm_compute proof with its own machine; on the float-level developments that can exceed any reasonable budget.
         # A timeout is not a rejection: it is recorded in the evidence and the kernel's own check (the .vo build) stands.
-        return 124, [], [], "timed out after 1800 s"
+        return 124, [], [], "timed out after 900 s"
     m = re.search(r"\* Axioms:(.*?)\n\s*\n", r.stdout, re.S)
     axs = [a.strip() for a in (m.group(1).split("\n") if m else []) if a.strip() and a.strip() != "<none>"]
     unsafe = []
